@@ -51,7 +51,7 @@ Section FloorSys.
     intros I LR. unfold init_dev. set (x := getd w d). destruct (is_holder (d_kind x)) eqn:HK; [|exact I].
     set (w1 := updd w d (fun y => dev_set_wait nw true true y)).
     assert (I1 : DevInv P w1).
-    { eapply R_DevInv; [apply (P_stable nw)| |exact I]. apply (R_dev nw w d _ _ (dp_set_wait nw true true)). exact Logic.I. }
+    { eapply R_DevInv; [apply (P_stable nw)| |exact I]. apply (R_dev nw w d _ _ (dp_set_wait nw true true)); [kr|exact Logic.I]. }
     destruct (d_kind x) eqn:K; try exact I1.
     - (* processor: the uptime clock starts *)
       intros d' y Hy. unfold updd, setd in Hy. cbn in Hy. apply aget_arepl_some in Hy.
